@@ -117,3 +117,74 @@ package ttheader
 //@   assigns in.$u, in.$readlen, in.$lasterr
 //@   loop 1 invariant 0 <= i && i <= transformIDNum && hdIdx == 2 + i && transformIDNum <= len(headerInfo) - 2 && err == nil
 //@   loop 1 decreases transformIDNum - i
+
+// ---- encoding, over the bufiox.Writer interface contract ----
+
+//@ pred wrAdded(wr) = wr.$wlen - old(wr.$wlen)
+
+//@ func WriteByte
+//@   arith int
+//@   props C06
+//@   requires !isnil(out)
+//@   ensures ret == nil ==> wrGrew(out, 1) && out.$lastchunk[0] == val
+//@   ensures ret != nil ==> wrSame(out)
+//@   assigns out.$wlen, out.$nchunks, out.$lastchunk, out.$prevchunk
+
+//@ func WriteUint16
+//@   arith int
+//@   props C06
+//@   requires !isnil(out)
+//@   ensures ret == nil ==> wrGrew(out, 2) && vs.BE16(out.$lastchunk, 0) == val
+//@   ensures ret != nil ==> wrSame(out)
+//@   assigns out.$wlen, out.$nchunks, out.$lastchunk, out.$prevchunk
+
+//@ func WriteUint32
+//@   arith int
+//@   props C06
+//@   requires !isnil(out)
+//@   ensures ret == nil ==> wrGrew(out, 4) && vs.BE32(out.$lastchunk, 0) == val
+//@   ensures ret != nil ==> wrSame(out)
+//@   assigns out.$wlen, out.$nchunks, out.$lastchunk, out.$prevchunk
+
+//@ func WriteString2BLen
+//@   arith int
+//@   props C06
+//@   requires !isnil(out)
+//@   ensures ret1 == nil ==> ret0 == 2 + len(val) && wrAdded(out) == ret0 && out.$wlen <= 0x800000000000 && 0 <= old(out.$wlen) && out.$nchunks == old(out.$nchunks) + 2 &&
+//@           len(out.$prevchunk) == 2 && vs.BE16(out.$prevchunk, 0) == uint16(len(val)) && len(out.$lastchunk) == len(val) && eqbytes(out.$lastchunk, 0, val, 0, len(val))
+//@   ensures ret1 != nil ==> ret0 == 0
+//@   assigns out.$wlen, out.$nchunks, out.$lastchunk, out.$prevchunk
+
+//@ func WriteString
+//@   arith int
+//@   props C06
+//@   requires !isnil(out)
+//@   ensures ret1 == nil ==> ret0 == 4 + len(val) && wrAdded(out) == ret0 && out.$wlen <= 0x800000000000 && 0 <= old(out.$wlen) && out.$nchunks == old(out.$nchunks) + 2 &&
+//@           len(out.$prevchunk) == 4 && vs.BE32(out.$prevchunk, 0) == uint32(len(val)) && len(out.$lastchunk) == len(val) && eqbytes(out.$lastchunk, 0, val, 0, len(val))
+//@   ensures ret1 != nil ==> ret0 == 0
+//@   assigns out.$wlen, out.$nchunks, out.$lastchunk, out.$prevchunk
+
+// writeKVInfo: the size it reports is exactly what it appended, and it is padded to a multiple of 4.
+//@ func writeKVInfo
+//@   arith int
+//@   props C06
+//@   requires !isnil(out) && 0 <= writtenSize && writtenSize <= 1024
+//@   ensures err == nil ==> writeSize - writtenSize == wrAdded(out) && writeSize % 4 == 0 && writeSize >= writtenSize
+//@   assigns out.$wlen, out.$nchunks, out.$lastchunk, out.$prevchunk
+//@   loop 1 invariant writeSize - writtenSize == wrAdded(out) && writeSize >= writtenSize && err == nil && 0 <= old(out.$wlen) && out.$wlen <= 0x800000000000
+//@   loop 2 invariant writeSize - writtenSize == wrAdded(out) && writeSize >= writtenSize && err == nil && 0 <= old(out.$wlen) && out.$wlen <= 0x800000000000
+//@   loop 3 invariant 0 <= i && i <= len(paddingBuf) && writeSize - writtenSize + padding == wrAdded(out) && err == nil
+//@   loop 3 decreases len(paddingBuf) - i
+
+// Encode: on success exactly 14 + size bytes were appended, size is a multiple of 4 within
+// 4..65536, and the 14-byte meta block (reachable through the returned length field) holds
+// magic+flags, the sequence id and size/4; the length field itself is left for the caller.
+//@ func Encode
+//@   arith int
+//@   props C06
+//@   requires !isnil(out)
+//@   ensures err == nil ==> len(totalLenField) == 4 && writable(totalLenField) && (wrAdded(out) - 14) % 4 == 0 && 4 <= wrAdded(out) - 14 && (wrAdded(out) - 14 < 0x100000000 ==> wrAdded(out) - 14 <= 65536)
+//@   ensures err == nil ==> vs.BE32(totalLenField[0:14], 4) == 0x10000000 + uint32(param.Flags) && vs.BE32(totalLenField[0:14], 8) == uint32(param.SeqID) && (wrAdded(out) - 14 < 0x100000000 ==> int(vs.BE16(totalLenField[0:14], 12)) * 4 == wrAdded(out) - 14)
+//@   ensures err != nil ==> isnil(totalLenField)
+//@   assigns out.$wlen, out.$nchunks, out.$lastchunk, out.$prevchunk
+//@   loop 1 invariant wrAdded(out) == 16 && err == nil && 0 <= old(out.$wlen) && out.$wlen <= 0x800000000000
